@@ -1255,4 +1255,125 @@ theorem enabledShape_expected (mh mt : Nat) (k : Kind) (sl : Slot) (ctx : Nat) :
   cases sl <;> cases k <;> simp only [expectedShapeM, specCallM, reduceCtorEq, if_false, if_true, false_and, true_and] <;>
     first | exact huncond _ | exact hmask _ _ _
 
+
+/-! ### the multi-unit pool functions on the abstract content -/
+open ArgoVerif.Model.TQ
+
+theorem pushTail_of_step {s s' : St} {u : Nat} {o : Out} (h : step s (.pushTail u) = some (s', o)) : pushTail s u = some s' := by
+  simp only [step, Option.map_eq_some_iff] at h
+  obtain ⟨a, ha, he⟩ := h
+  simp only [Prod.mk.injEq] at he
+  rw [ha, he.1]
+
+theorem pushHead_of_step {s s' : St} {u : Nat} {o : Out} (h : step s (.pushHead u) = some (s', o)) : pushHead s u = some s' := by
+  simp only [step, Option.map_eq_some_iff] at h
+  obtain ⟨a, ha, he⟩ := h
+  simp only [Prod.mk.injEq] at he
+  rw [ha, he.1]
+
+/-- `push_many` at the tail: the units are appended in array order -/
+theorem pushTail_many {s : St} (hi : Inv s) (us : List Nat) (hnd : us.Nodup) (hn : ∀ u ∈ us, u ≠ 0 ∧ u ∉ abs s) :
+    ∃ s', us.foldlM (fun s u => pushWith .pushTail s u) s = some s' ∧ Inv s' ∧ abs s' = abs s ++ us := by
+  induction us generalizing s with
+  | nil => exact ⟨s, rfl, hi, by simp⟩
+  | cons u r ih =>
+    have hu := hn u (by simp)
+    have h1 := step_refines hi (.pushTail u)
+    simp only [specStep, hu.1, hu.2, or_self, if_false] at h1
+    obtain ⟨s1, he, hi1, ha1⟩ := h1
+    have hnd' := List.nodup_cons.mp hnd
+    obtain ⟨s', hf, hi', ha'⟩ := ih hi1 hnd'.2 (fun v hv => by
+      refine ⟨(hn v (List.mem_cons_of_mem _ hv)).1, ?_⟩
+      rw [ha1]
+      simp only [List.mem_append, List.mem_singleton, not_or]
+      exact ⟨(hn v (List.mem_cons_of_mem _ hv)).2, fun e => hnd'.1 (e ▸ hv)⟩)
+    refine ⟨s', ?_, hi', by rw [ha', ha1]; simp⟩
+    simp only [List.foldlM_cons, pushWith, pushTail_of_step he, Option.bind_eq_bind, Option.bind_some]
+    exact hf
+
+/-- `push_many` at the head: each unit goes in front of the previous one -/
+theorem pushHead_many {s : St} (hi : Inv s) (us : List Nat) (hnd : us.Nodup) (hn : ∀ u ∈ us, u ≠ 0 ∧ u ∉ abs s) :
+    ∃ s', us.foldlM (fun s u => pushWith .pushHead s u) s = some s' ∧ Inv s' ∧ abs s' = us.reverse ++ abs s := by
+  induction us generalizing s with
+  | nil => exact ⟨s, rfl, hi, by simp⟩
+  | cons u r ih =>
+    have hu := hn u (by simp)
+    have h1 := step_refines hi (.pushHead u)
+    simp only [specStep, hu.1, hu.2, or_self, if_false] at h1
+    obtain ⟨s1, he, hi1, ha1⟩ := h1
+    have hnd' := List.nodup_cons.mp hnd
+    obtain ⟨s', hf, hi', ha'⟩ := ih hi1 hnd'.2 (fun v hv => by
+      refine ⟨(hn v (List.mem_cons_of_mem _ hv)).1, ?_⟩
+      rw [ha1]
+      simp only [List.mem_cons, not_or]
+      exact ⟨fun e => hnd'.1 (e ▸ hv), (hn v (List.mem_cons_of_mem _ hv)).2⟩)
+    refine ⟨s', ?_, hi', by rw [ha', ha1]; simp⟩
+    simp only [List.foldlM_cons, pushWith, pushHead_of_step he, Option.bind_eq_bind, Option.bind_some]
+    exact hf
+
+theorem popHead_of_step {s s' : St} {r : Nat} (h : step s .popHead = some (s', .popped r)) : popHead s = some (s', r) := by
+  simp only [step, Option.map_eq_some_iff] at h
+  obtain ⟨a, ha, he⟩ := h
+  obtain ⟨a1, a2⟩ := a
+  simp only [Prod.mk.injEq, Out.popped.injEq] at he
+  rw [ha, he.1, he.2]
+
+theorem popTail_of_step {s s' : St} {r : Nat} (h : step s .popTail = some (s', .popped r)) : popTail s = some (s', r) := by
+  simp only [step, Option.map_eq_some_iff] at h
+  obtain ⟨a, ha, he⟩ := h
+  obtain ⟨a1, a2⟩ := a
+  simp only [Prod.mk.injEq, Out.popped.injEq] at he
+  rw [ha, he.1, he.2]
+
+/-- `pop_many(max)` from the head: the first `max` units in queue order (fewer if the queue runs empty) -/
+theorem popLoop_head (n : Nat) {s : St} (hi : Inv s) (acc : List Nat) :
+    ∃ s', popLoop .popHead n s acc = some (s', acc.reverse ++ (abs s).take n) ∧ Inv s' ∧ abs s' = (abs s).drop n := by
+  induction n generalizing s acc with
+  | zero => exact ⟨s, by simp [popLoop], hi, by simp⟩
+  | succ n ih =>
+    have h1 := step_refines hi .popHead
+    simp only [specStep] at h1
+    obtain ⟨s1, he, hi1, ha1⟩ := h1
+    have hp := popHead_of_step he
+    cases hx : abs s with
+    | nil =>
+      rw [hx] at hp ha1
+      refine ⟨s1, ?_, hi1, by simpa using ha1⟩
+      simp [popLoop, popWith, hp]
+    | cons x t =>
+      rw [hx] at hp ha1
+      have hx0 : x ≠ 0 := hi.wf.nonnull x (by rw [hx]; simp)
+      obtain ⟨s', hl, hi', ha'⟩ := ih hi1 (x :: acc)
+      refine ⟨s', ?_, hi', by rw [ha', ha1]; simp⟩
+      simp only [List.head?_cons, Option.getD_some] at hp
+      obtain ⟨k, rfl⟩ : ∃ k, x = k + 1 := ⟨x - 1, by omega⟩
+      simp only [popLoop, popWith, hp]
+      rw [hl, ha1]; simp
+
+/-- `pop_many(max)` from the tail: the last `max` units, last first -/
+theorem popLoop_tail (n : Nat) {s : St} (hi : Inv s) (acc : List Nat) :
+    ∃ s', popLoop .popTail n s acc = some (s', acc.reverse ++ (abs s).reverse.take n) ∧ Inv s' ∧
+      abs s' = ((abs s).reverse.drop n).reverse := by
+  induction n generalizing s acc with
+  | zero => exact ⟨s, by simp [popLoop], hi, by simp⟩
+  | succ n ih =>
+    have h1 := step_refines hi .popTail
+    simp only [specStep] at h1
+    obtain ⟨s1, he, hi1, ha1⟩ := h1
+    have hp := popTail_of_step he
+    by_cases hx : abs s = []
+    · rw [hx] at hp ha1
+      refine ⟨s1, ?_, hi1, by simpa [hx] using ha1⟩
+      simp [popLoop, popWith, hp, hx]
+    · obtain ⟨r, x, hrx⟩ := ArgoVerif.Heap.exists_snoc hx
+      rw [hrx] at hp ha1
+      have hx0 : x ≠ 0 := hi.wf.nonnull x (by rw [hrx]; simp)
+      obtain ⟨s', hl, hi', ha'⟩ := ih hi1 (x :: acc)
+      simp only [List.dropLast_concat] at ha1
+      refine ⟨s', ?_, hi', by rw [ha', ha1, hrx]; simp⟩
+      simp only [List.getLast?_append, List.getLast?_singleton, Option.some_or, Option.getD_some] at hp
+      obtain ⟨k, rfl⟩ : ∃ k, x = k + 1 := ⟨x - 1, by omega⟩
+      simp only [popLoop, popWith, hp]
+      rw [hl, ha1, hrx]; simp
+
 end ArgoVerif.Model.Pool
